@@ -13,7 +13,10 @@ use crate::model::network::{edge_id::EdgeId, vertex_id::VertexId};
 
 use crate::model::unit::Cost;
 use serde::{Deserialize, Serialize};
+#[cfg(not(all(kani, feature = "verif-models")))]
 use std::collections::HashMap;
+#[cfg(all(kani, feature = "verif-models"))]
+use crate::util::verif_collections::HashMap;
 
 #[derive(Serialize, Deserialize)]
 #[serde(rename_all = "snake_case", tag = "type")]
